@@ -831,7 +831,7 @@ func gen(t *rapid.T) Case {
 				body, imps := genBody(t, n, hostile)
 				e := Edit{Method: m, Body: body, Imports: imps}
 				if rapid.Bool().Draw(t, "doc") {
-					e.Doc = rapid.SampledFrom([]string{"documented by the user.", "two\nlines", "with { brace"}).Draw(t, "doctext")
+					e.Doc = rapid.SampledFrom([]string{"documented by the user.", "two\nlines", "with { brace", "first paragraph of the user\n\nDeprecated: second paragraph.", "a\n\nb\n\nc"}).Draw(t, "doctext")
 				}
 				if rapid.IntRange(0, 3).Draw(t, "named") == 0 {
 					e.Results = []string{"res", "err"}
